@@ -4,7 +4,7 @@
    spec_case : what the implementation did satisfies the property's specification, judged
                directly on the observed values (no model function decides the verdict, except the
                shared parsers of an address / a response scope where noted). *)
-From Sdns Require Export Common.Base Common.GoList Gen.C19 C19.Model C19.WireOpt.
+From Sdns Require Export Common.Base Common.GoList Gen.C19 C19.Model C19.WireOpt C19.WireReq.
 Open Scope N_scope.
 
 Inductive case :=
@@ -33,6 +33,9 @@ Inductive case :=
   (* edns ResponseWriter.WriteWire, byte for byte: length of the packed body handed in, the facts the
      layer composes its OPT from (server cookie as observed: a digest), the octets it appended *)
 | CaseEdnsWireBytes (body_len : N) (f : wire_facts) (appended : list N)
+  (* Request.ParseWire on a packet whose single additional record starts at off: admitted by the
+     strict parser?  and, if so, Request.HasECS / HasNSID / HasTCPKeepalive *)
+| CaseWireOPT (raw : list N) (off : Z) (admitted has_ecs has_nsid has_keepalive : bool)
   (* a history of client queries through edns + cache against scripted upstream answers *)
 | CaseCache (c : ccfg) (ops : list (cop * obs))
   (* a request tree against seeded shared denial state.  Per node, pre-order: which of the three
@@ -121,6 +124,20 @@ Definition check_case (c : case) : bool :=
   | CaseEdnsWireBytes body_len f appended =>
       let body := repeat 0 (N.to_nat body_len) in
       list_eqb N.eqb (append_wire_opt body f) (body ++ appended)
+  | CaseWireOPT raw off adm e n k =>
+      (* the translated parseWireOPT decides admission; the translated loop yields the facts *)
+      match wire_opt_admitted raw off with
+      | Some a =>
+          Bool.eqb a adm &&
+          (if adm then
+             match wire_opt_walk raw off with
+             | (GoNext, r) => Bool.eqb (T_Request_hasECS r) e && Bool.eqb (T_Request_hasNSID r) n &&
+                              Bool.eqb (T_Request_hasKeepalive r) k
+             | _ => false
+             end
+           else true)
+      | None => false
+      end
   | CaseCache c ops => check_ops c [] ops
   | CaseDenial b t seen =>
       perms_match (tree_perms (policy_of b) (mk_dctx false false) t) seen
@@ -389,6 +406,15 @@ Definition spec_case (c : case) : bool :=
       | Some (_, do_, os) => Bool.eqb do_ (wf_do f) && forallb (fun o => negb (fst o =? 8)) os
       | None => false
       end
+  | CaseWireOPT raw off adm e n k =>
+      (* an admitted packet's OPT, read by the RFC 6891 reader (not by the code's walk): the request is
+         marked as carrying ECS exactly when a client-subnet option (code 8) is among its options *)
+      if adm then
+        match read_opt_rr (skipn (Z.to_nat off) raw) with
+        | Some (_, _, os) => Bool.eqb e (existsb (fun o => fst o =? 8) os)
+        | None => false
+        end
+      else true
   | CaseCache c ops => spec_ops c [] ops
   | CaseDenial b t seen => negb (root_isolated t) || forallb (fun s => negb (snd s)) seen
   end.
